@@ -54,6 +54,52 @@ def showSpans (sp : List OSpan) : String :=
   if sp.isEmpty then "-" else
   ",".intercalate (sp.map fun s => s!"{match s.offset with | some o => toString o | none => "n"}:{s.size}:{s.addr}")
 
+def parseBIField (s : String) : BI :=
+  match s.splitOn ":" with
+  | [v, z] => ⟨v.toInt?.getD 0, optNat z⟩
+  | _ => default
+
+def parseValField (s : String) : Option Value :=
+  match s.toList with
+  | ['u'] => some .unknown
+  | ['v'] => some .void
+  | ['x'] => some (.failed "")
+  | ['h'] => none
+  | ['b', '1'] => some (.bool true)
+  | ['b', '0'] => some (.bool false)
+  | ['o'] => some (.builtin "")
+  | 'i' :: r => some (.int (parseBIField (String.ofList r)))
+  | 'f' :: r => (String.ofList r).toNat?.map .fn
+  | 's' :: r =>
+    match (String.ofList r).splitOn ":" with
+    | [h, e] => (encOfName e).map fun enc => .str (unhexText h) enc
+    | _ => none
+  | _ => none
+
+def listField (s : String) : List String := if s == "-" then [] else s.splitOn ","
+
+def parseAsmFields (fields : List String) : Option (Opts × SrcFiles × List (List Char)) :=
+  match fields with
+  | maxIter :: optS :: optM :: defsField :: nroots :: _nfiles :: rest =>
+    match maxIter.toNat?, nroots.toNat? with
+    | some mi, some nr =>
+      let defines : List (String × Value) := if defsField == "-" then [] else
+        (defsField.splitOn ",").filterMap fun d =>
+          match d.splitOn "=" with
+          | [n, v] =>
+            let name := String.ofList (unhexText n)
+            if v == "t" then some (name, .bool true)
+            else if v == "f" then some (name, .bool false)
+            else ((String.ofList (v.toList.drop 1)).toInt?).map fun i => (name, Value.int ⟨i, none⟩)
+          | _ => none
+      let rec pairs : List String → List (List Char × List Nat)
+        | n :: c :: r => (unhexText n, if c == "-" then [] else unhexBytes c.toList) :: pairs r
+        | _ => []
+      let files := pairs rest
+      some ({ maxIter := mi, optStatic := optS == "1", optMatcher := optM == "1", defines := defines }, files, (files.take nr).map (·.1))
+    | _, _ => none
+  | _ => none
+
 def step (line : String) : String :=
   match line.trimAscii.toString.splitOn " " with
   | ["arg", t, n, v] =>
@@ -245,6 +291,16 @@ def step (line : String) : String :=
         s!"ok {showBits r.bits} {showSpans r.spans} iters={r.iters} syms={syms}"
       | .error msgs => s!"err {msgs.headD "?"}"
     | _, _, _ => "bad-op"
+  | "cert" :: sy :: ins :: dat :: res :: ali :: adr :: "asm" :: fields =>
+    match parseAsmFields fields with
+    | some (opts, files, roots) =>
+      let dump : StateDump :=
+        ⟨(listField sy).map parseValField, (listField ins).map parseBIField, (listField dat).map parseBIField,
+         (listField res).map (·.toNat?.getD 0), (listField ali).map (·.toNat?.getD 0), (listField adr).map (·.toInt?.getD 0)⟩
+      match certify opts files roots dump with
+      | .ok _ => "fixed-point"
+      | .error m => s!"not-fixed-point {m}"
+    | none => "bad-op"
   | _ => "bad-op"
 
 partial def loop (h : IO.FS.Stream) (out : IO.FS.Stream) : IO Unit := do
